@@ -175,6 +175,11 @@ def _validate_chunk(module, cfg, lines, dest, timeout, cover=False):
     raise ToolError("trace validation run failed (%s)" % (r["error"] or "unknown"))
 
 
+# trace specifications on which TLC's -coverage is cheap (it is not on the monitors, whose one big
+# record makes the bookkeeping dominate: JobMon went from seconds to a timeout)
+COVERABLE = {"JobTrace.tla", "WorkerTrace.tla", "FsTrace.tla", "ProcTrace.tla"}
+
+
 def validate_traces(module, cfg, trace_file, name, shards=8, timeout=600, max_reject=25):
     """Validate every scenario of trace_file. Returns (n_accepted, rejections, tlc_stats).
     A rejection is dict(script, line, event, kind, invariant, lines)."""
@@ -193,9 +198,9 @@ def validate_traces(module, cfg, trace_file, name, shards=8, timeout=600, max_re
         while chunk and len(rej) < max_reject:
             lines = [ln for sc in chunk for ln in sc]
             res, r = _validate_chunk(module, cfg, lines, os.path.join(base, "s%d_%d" % (idx, run)),
-                                     timeout, cover=True)
-            # spec expressions no shard ever evaluated: the part of the specification these
-            # traces did not exercise (intersection over the shards' first complete runs)
+                                     timeout, cover=(module in COVERABLE and idx == 0 and run == 0))
+            # spec expressions the first shard never evaluated: the part of the specification
+            # these traces did not exercise (an over-approximation: other shards may reach more)
             if res is None and "uncovered" in r:
                 u = set(r["uncovered"])
                 stats["uncovered"] = u if stats["uncovered"] is None else (stats["uncovered"] & u)
